@@ -414,6 +414,27 @@ pub fn x_split<'a>(s: &'a str, c: char) -> (r: Vec<&'a str>)
 { s.split(c).collect() }
 
 
+// ---- generic facts about has_char (used by the inverse and checksum theories) ----
+pub proof fn lemma_has_char_concat(a: Seq<char>, b: Seq<char>, c: char)
+    ensures has_char(a + b, c) == (has_char(a, c) || has_char(b, c))
+{
+    if has_char(a, c) { let i = choose|i: int| 0 <= i < a.len() && a[i] == c; assert((a + b)[i] == c); }
+    if has_char(b, c) { let i = choose|i: int| 0 <= i < b.len() && b[i] == c; assert((a + b)[a.len() + i] == c); }
+    if has_char(a + b, c) {
+        let i = choose|i: int| 0 <= i < (a + b).len() && (a + b)[i] == c;
+        if i < a.len() { assert(a[i] == c); } else { assert(b[i - a.len()] == c); }
+    }
+}
+
+
+pub proof fn lemma_single_excludes(c: char, x: char)
+    requires c != x
+    ensures !has_char(seq![c], x)
+{
+    if has_char(seq![c], x) { let i = choose|i: int| 0 <= i < seq![c].len() && seq![c][i] == x; }
+}
+
+
 // ---- unit T.PurlField  <= purl/src/parse.rs:112 ----
 #[derive(Debug, Clone, Copy)]
 pub enum PurlField {
@@ -1945,11 +1966,6 @@ pub proof fn axiom_dec_enc(set: SetId, s: Seq<char>)
 { }
 
 #[verifier::external_body] /* proved in group inverse */
-pub proof fn lemma_has_char_concat(a: Seq<char>, b: Seq<char>, c: char)
-    ensures has_char(a + b, c) == (has_char(a, c) || has_char(b, c))
-{ }
-
-#[verifier::external_body] /* proved in group inverse */
 pub proof fn lemma_enc_concat(set: SetId, a: Seq<char>, b: Seq<char>)
     ensures enc(set, a + b) == enc(set, a) + enc(set, b)
     decreases b.len()
@@ -2164,12 +2180,6 @@ pub proof fn lemma_lits()
 { }
 
 #[verifier::external_body] /* proved in group inverse */
-pub proof fn lemma_single_excludes(c: char, x: char)
-    requires c != x
-    ensures !has_char(seq![c], x)
-{ }
-
-#[verifier::external_body] /* proved in group inverse */
 pub proof fn lemma_type_excludes(ty: Seq<char>, x: char)
     requires valid_type(ty), x == '#' || x == '?' || x == '@' || x == '/'
     ensures !has_char(ty, x), ty.len() > 0, ty[0] != '/'
@@ -2265,6 +2275,133 @@ pub proof fn lemma_canon_injective(ty1: Seq<char>, p1: PurlParts, n1: Seq<Seq<ch
         kvs(p1.qualifiers.qualifiers@) == kvs(p2.qualifiers.qualifiers@)
 { }
 
+// ---- unit theory.ckfix  <= (contracts):0 ----
+// ---- the checksum text is a fixpoint of parse + serialise (C01 / C10 / C12) ----
+// A-validated per char (exhaustive over all scalar values): lower-casing never produces ',' from another character
+#[verifier::external_body]
+pub proof fn axiom_lower_no_comma(c: char)
+    requires c != ','
+    ensures !has_char(u_to_lower(c), ',')
+{ }
+
+#[verifier::external_body] /* proved in group ckfix */
+pub proof fn lemma_lower_seq_no_comma(s: Seq<char>)
+    requires !has_char(s, ',')
+    ensures !has_char(lower_seq(s), ',')
+    decreases s.len()
+{ }
+
+pub open spec fn lower_vals(es: VS) -> VS { es.map_values(|e: (Seq<char>, Seq<char>)| (e.0, lower_ascii_seq(e.1))) }
+pub open spec fn pieces_of(es: VS) -> Seq<Seq<char>> { es.map_values(|e: (Seq<char>, Seq<char>)| entry_text(e.0, e.1)) }
+/// the map a listing denotes
+pub open spec fn map_of(es: VS) -> Map<Seq<char>, Seq<char>> decreases es.len() {
+    if es.len() == 0 { Map::<Seq<char>, Seq<char>>::empty() } else { map_of(es.drop_last()).insert(es.last().0, es.last().1) }
+}
+pub open spec fn keys_distinct(es: VS) -> bool { forall|i: int, j: int| 0 <= i < j < es.len() ==> #[trigger] es[i].0 != #[trigger] es[j].0 }
+pub open spec fn keys_fixed(es: VS) -> bool { forall|i: int| 0 <= i < es.len() ==> lower_seq(#[trigger] es[i].0) == es[i].0 && !has_char(es[i].0, ',') }
+
+#[verifier::external_body] /* proved in group ckfix */
+pub proof fn lemma_hex_lower(v: Seq<char>)
+    requires hex_ok(v)
+    ensures hex_ok(lower_ascii_seq(v)), lower_ascii_seq(lower_ascii_seq(v)) == lower_ascii_seq(v),
+        !has_char(lower_ascii_seq(v), ':'), !has_char(lower_ascii_seq(v), ',')
+{ }
+
+#[verifier::external_body] /* proved in group ckfix */
+pub proof fn lemma_map_of_keys(es: VS, k: Seq<char>)
+    ensures map_of(es).contains_key(k) <==> exists|i: int| 0 <= i < es.len() && #[trigger] es[i].0 == k
+    decreases es.len()
+{ }
+
+#[verifier::external_body] /* proved in group ckfix */
+pub proof fn lemma_map_of_is_listing(es: VS)
+    requires keys_distinct(es)
+    ensures is_listing(es, map_of(es))
+    decreases es.len()
+{ }
+
+/// splitting the text of a non-empty listing at ',' gives back the entry texts (no key, no hex value contains ',')
+#[verifier::external_body] /* proved in group ckfix */
+pub proof fn lemma_split_listing(es: VS)
+    requires es.len() > 0, keys_fixed(es), all_hex_ok(es)
+    ensures split_spec(listing_text(es), ',') == pieces_of(es)
+    decreases es.len()
+{ }
+
+/// folding the entry texts of a listing with distinct lower-case keys gives the map of the listing with lower-cased hex
+#[verifier::external_body] /* proved in group ckfix */
+pub proof fn lemma_fold_listing(es: VS)
+    requires keys_fixed(es), keys_distinct(es), all_hex_ok(es)
+    ensures ck_fold(pieces_of(es)) == Some(map_of(lower_vals(es)))
+    decreases es.len()
+{ }
+
+#[verifier::external_body] /* proved in group ckfix */
+pub proof fn lemma_lower_vals_text(es: VS)
+    requires all_hex_ok(es)
+    ensures listing_text(lower_vals(es)) == listing_text(es), all_hex_ok(lower_vals(es))
+    decreases es.len()
+{ }
+
+/// C12 / C01: for entries `es` in ascending key order with lower-case, comma-free keys and hex values, the text parses
+/// back to the same keys with lower-cased hex, and that map's canonical text is the same text
+#[verifier::external_body] /* proved in group ckfix */
+pub proof fn theorem_checksum_text_fixpoint(es: VS, m: Map<Seq<char>, Seq<char>>)
+    requires es.len() > 0, is_listing(es, m), sorted_by_key(es), keys_fixed(es), all_hex_ok(es)
+    ensures
+        canon_text(m) == listing_text(es),
+        ck_parse(canon_text(m)) is Some,
+        ck_text(ck_parse(canon_text(m))->Some_0) == Some(canon_text(m)),
+{ }
+
+// ---- every map ck_parse returns has a sorted listing with lower-case, comma-free keys ----
+#[verifier::external_body] /* proved in group ckfix */
+pub proof fn lemma_split_pieces_no_sep(s: Seq<char>, c: char)
+    ensures forall|i: int| 0 <= i < split_spec(s, c).len() ==> !has_char(#[trigger] split_spec(s, c)[i], c)
+    decreases s.len()
+{ }
+
+#[verifier::external_body] /* proved in group ckfix */
+pub proof fn lemma_lt_trichotomy(a: Seq<char>, b: Seq<char>)
+    ensures str_lt(a, b) || a == b || str_lt(b, a)
+{ }
+
+pub open spec fn ins_pos(es: VS, k: Seq<char>) -> int decreases es.len() {
+    if es.len() == 0 { 0 } else { ins_pos(es.drop_last(), k) + if str_lt(es.last().0, k) { 1int } else { 0int } }
+}
+
+#[verifier::external_body] /* proved in group ckfix */
+pub proof fn lemma_ins_pos(es: VS, k: Seq<char>)
+    requires sorted_by_key(es), forall|i: int| 0 <= i < es.len() ==> (#[trigger] es[i]).0 != k
+    ensures 0 <= ins_pos(es, k) <= es.len(),
+        forall|j: int| 0 <= j < ins_pos(es, k) ==> str_lt(#[trigger] es[j].0, k),
+        forall|j: int| ins_pos(es, k) <= j < es.len() ==> str_lt(k, #[trigger] es[j].0),
+    decreases es.len()
+{ }
+
+#[verifier::external_body] /* proved in group ckfix */
+pub proof fn lemma_sorted_insert(es: VS, m: Map<Seq<char>, Seq<char>>, k: Seq<char>, v: Seq<char>)
+    requires is_listing(es, m), sorted_by_key(es), !m.contains_key(k)
+    ensures is_listing(es.insert(ins_pos(es, k), (k, v)), m.insert(k, v)), sorted_by_key(es.insert(ins_pos(es, k), (k, v)))
+{ }
+
+#[verifier::external_body] /* proved in group ckfix */
+pub proof fn lemma_ck_fold_sorted_listing(ps: Seq<Seq<char>>)
+    requires ck_fold(ps) is Some, forall|i: int| 0 <= i < ps.len() ==> !has_char(#[trigger] ps[i], ',')
+    ensures exists|es: VS| #![auto] is_listing(es, ck_fold(ps)->Some_0) && sorted_by_key(es) && keys_fixed(es) && es.len() == ps.len()
+    decreases ps.len()
+{ }
+
+/// C12 / C01 / C10, as used by build(): the text build() stores for a checksum is a fixpoint of what build() does to it
+#[verifier::external_body] /* proved in group ckfix */
+pub proof fn theorem_checksum_rebuild(x: Seq<char>)
+    requires ck_parse(x) is Some, ck_text(ck_parse(x)->Some_0) is Some
+    ensures ({
+        let t = ck_text(ck_parse(x)->Some_0)->Some_0;
+        t.len() > 0 && ck_parse(t) is Some && ck_text(ck_parse(t)->Some_0) == Some(t)
+    })
+{ }
+
 // ---- unit theory.c01  <= (contracts):0 ----
 // ---- C01 / C10 for the type-agnostic PURL, as a theorem over the specification functions ----
 // from_str is proved to satisfy parse_post (group parse), Display::fmt to write canon_spec (group fmt), the three built-in
@@ -2348,44 +2485,17 @@ pub proof fn lemma_kvs_values_nonempty(v: Seq<(QualifierKey, SmallString)>, w: S
     }
 }
 
-/// what build() makes of parsed parts under an identity hook: the parts are normalised in the sense of the inverse theorem
-pub proof fn lemma_built_is_normal<T: FromStr + PurlShape>(s: Seq<char>, t1: T, p1: PurlParts, fr: Result<(), <T as PurlShape>::Error>, g: GenericPurl<T>)
-    where <T as PurlShape>::Error: From<<T as FromStr>::Err>
-    requires
-        phase_a(s) is Ok, phase_b(phase_a(s)->Ok_0.rest) is Ok,
-        parts_are(p1, phase_a(s)->Ok_0, phase_b(phase_a(s)->Ok_0.rest)->Ok_0),
-        fr is Ok, build_post::<T>(t1, p1, fr, Ok::<GenericPurl<T>, <T as PurlShape>::Error>(g)),
-        !has_key(g.parts.qualifiers.qualifiers@, checksum_key()),
-    ensures
-        g.package_type == t1,
-        g.parts.namespace == p1.namespace, g.parts.name == p1.name, g.parts.version == p1.version, g.parts.subpath == p1.subpath,
-        g.parts.qualifiers.qualifiers@ == nonempty_part(p1.qualifiers.qualifiers@),
-        exists|ns_segs: Seq<Seq<char>>, sub_segs: Seq<Seq<char>>| #[trigger] norm_parts(g.parts, ns_segs, sub_segs),
-{
-    let a = phase_a(s)->Ok_0;
-    let b = phase_b(a.rest)->Ok_0;
-    let q2 = nonempty_part(p1.qualifiers.qualifiers@);
-    lemma_checksum_key();
-    if has_key(q2, checksum_key()) {
-        // build() would have kept a checksum entry at that position: excluded by the hypothesis
-        let p = pos_of(q2, checksum_key());
-        lemma_nonempty_wf(p1.qualifiers.qualifiers@);
-        lemma_has_pair_pos_key(q2, checksum_key());
-        let gq = g.parts.qualifiers.qualifiers@;
-        assert(gq[p].0 == q2[p].0);
-        assert(gq[p].0.0@ == checksum_key());
-        assert(has_key(gq, checksum_key()));
-    }
-    lemma_nonempty_wf(p1.qualifiers.qualifiers@);
-    lemma_nonempty_subset(p1.qualifiers.qualifiers@);
-    lemma_c07_of_phases(s);
-    let ns_segs = if b.ns.len() == 0 { Seq::<Seq<char>>::empty() } else {
-        choose|segs: Seq<Seq<char>>| #![auto] segs.len() > 0 && b.ns == join_segs(segs) && split_spec(b.ns, '/') == segs
-            && forall|i: int| 0 <= i < segs.len() ==> clean_ns_seg(#[trigger] segs[i]) };
-    let sub_segs = if a.sub.len() == 0 { Seq::<Seq<char>>::empty() } else {
-        choose|segs: Seq<Seq<char>>| #![auto] segs.len() > 0 && a.sub == join_segs(segs) && split_spec(a.sub, '/') == segs
-            && forall|i: int| 0 <= i < segs.len() ==> clean_sub_seg(#[trigger] segs[i]) };
-    assert(norm_parts(g.parts, ns_segs, sub_segs));
+
+/// the checksum text, if there is one, is a fixpoint of build()'s canonicalisation
+pub open spec fn ck_stable(q: Seq<(QualifierKey, SmallString)>) -> bool {
+    has_key(q, checksum_key()) ==> ({
+        let t = q[pos_of(q, checksum_key())].1@;
+        t.len() > 0 && ck_parse(t) is Some && ck_text(ck_parse(t)->Some_0) == Some(t)
+    })
+}
+/// the qualifiers of a value handed out (C04): invariant, no empty value, canonical checksum
+pub open spec fn normal_quals(q: Seq<(QualifierKey, SmallString)>) -> bool {
+    wf_seq(q) && (forall|i: int| 0 <= i < q.len() ==> (#[trigger] q[i]).1@.len() > 0) && ck_stable(q)
 }
 
 /// a key that is present sits at its sorted position
@@ -2398,14 +2508,110 @@ pub proof fn lemma_has_pair_pos_key(v: Seq<(QualifierKey, SmallString)>, k: Seq<
     lemma_has_pair_pos(v, k);
 }
 
-/// C01 (type-agnostic instance, values without a checksum qualifier): print -> parse is accepted, gives the same type text and the
-/// same field texts, and prints the identical string again
+pub proof fn lemma_normal_quals_congr(a: Seq<(QualifierKey, SmallString)>, b: Seq<(QualifierKey, SmallString)>)
+    requires kvs(a) == kvs(b), wf_seq(b), normal_quals(a)
+    ensures normal_quals(b)
+{
+    lemma_kvs_values_nonempty(a, b);
+    lemma_kvs_pos_of(a, checksum_key());
+    lemma_kvs_pos_of(b, checksum_key());
+    if has_key(b, checksum_key()) {
+        let p = pos_of(b, checksum_key());
+        lemma_has_pair_pos_key(b, checksum_key());
+        lemma_has_pair_pos_key(a, checksum_key());
+        assert(kvs(a)[p] == (a[p].0.0@, a[p].1@));
+        assert(kvs(b)[p] == (b[p].0.0@, b[p].1@));
+    }
+}
+
+/// what build() hands out when the hook succeeded (from build_post alone): the fields the hook left, normal qualifiers
+pub proof fn lemma_first_build<T: PurlShape>(t1: T, p1: PurlParts, fr: Result<(), T::Error>, g: GenericPurl<T>)
+    requires fr is Ok, wf_seq(p1.qualifiers.qualifiers@), build_post::<T>(t1, p1, fr, Ok::<GenericPurl<T>, T::Error>(g)),
+    ensures
+        g.package_type == t1,
+        g.parts.namespace == p1.namespace, g.parts.name == p1.name, g.parts.version == p1.version, g.parts.subpath == p1.subpath,
+        g.parts.name@.len() > 0, normal_quals(g.parts.qualifiers.qualifiers@),
+{
+    let q2 = nonempty_part(p1.qualifiers.qualifiers@);
+    let gq = g.parts.qualifiers.qualifiers@;
+    lemma_checksum_key();
+    lemma_nonempty_wf(p1.qualifiers.qualifiers@);
+    lemma_nonempty_subset(p1.qualifiers.qualifiers@);
+    if has_key(q2, checksum_key()) {
+        let p = pos_of(q2, checksum_key());
+        lemma_has_pair_pos_key(q2, checksum_key());
+        let x = q2[p].1@;
+        let t = gq[p].1@;
+        lemma_update_value_keeps_wf(q2, p, gq[p].1);
+        assert(gq == q2.update(p, (q2[p].0, gq[p].1)));
+        assert forall|i: int| 0 <= i < gq.len() implies (#[trigger] gq[i]).1@.len() > 0 by { if i != p { assert(gq[i] == q2[i]); } }
+        assert(gq[p].0.0@ == checksum_key());
+        assert(has_key(gq, checksum_key()));
+        lemma_has_pair_pos_key(gq, checksum_key());
+        lemma_sorted_unique(gq, p, pos_of(gq, checksum_key()));
+        theorem_checksum_rebuild(x);
+    } else {
+        assert(gq == q2);
+    }
+}
+
+/// build() applied to parts whose qualifiers are already normal: accepted, nothing changes (texts)
+pub proof fn lemma_rebuild<T: PurlShape>(u1: T, q1: PurlParts, fr2: Result<(), T::Error>, r2: Result<GenericPurl<T>, T::Error>)
+    requires fr2 is Ok, q1.name@.len() > 0, normal_quals(q1.qualifiers.qualifiers@), build_post::<T>(u1, q1, fr2, r2),
+    ensures
+        r2 is Ok, r2->Ok_0.package_type == u1,
+        r2->Ok_0.parts.namespace == q1.namespace, r2->Ok_0.parts.name == q1.name, r2->Ok_0.parts.version == q1.version, r2->Ok_0.parts.subpath == q1.subpath,
+        kvs(r2->Ok_0.parts.qualifiers.qualifiers@) == kvs(q1.qualifiers.qualifiers@),
+        wf_seq(r2->Ok_0.parts.qualifiers.qualifiers@),
+{
+    let q = q1.qualifiers.qualifiers@;
+    lemma_nonempty_id(q);
+    lemma_checksum_key();
+    if has_key(q, checksum_key()) {
+        let p = pos_of(q, checksum_key());
+        lemma_has_pair_pos_key(q, checksum_key());
+        assert(r2 is Ok);
+        let rq = r2->Ok_0.parts.qualifiers.qualifiers@;
+        assert(rq == q.update(p, (q[p].0, rq[p].1)));
+        lemma_update_value_keeps_wf(q, p, rq[p].1);
+        assert(kvs(rq) =~= kvs(q)) by {
+            assert forall|i: int| 0 <= i < q.len() implies kvs(rq)[i] == kvs(q)[i] by { if i != p { assert(rq[i] == q[i]); } }
+        }
+    } else {
+        assert(r2 is Ok);
+    }
+}
+
+pub open spec fn seg_shape(ns: Seq<char>, sub: Seq<char>, ns_segs: Seq<Seq<char>>, sub_segs: Seq<Seq<char>>) -> bool {
+    (if ns.len() == 0 { ns_segs.len() == 0 } else { ns_segs.len() > 0 && slash_free_nonempty(ns_segs) && ns == join_segs(ns_segs) })
+    && (if sub.len() == 0 { sub_segs.len() == 0 } else { sub_segs.len() > 0 && clean_sub_segs(sub_segs) && sub == join_segs(sub_segs) })
+}
+
+/// the decoders' segment structure of a parsed value, in the form the inverse theorem wants
+pub proof fn lemma_parsed_segments(s: Seq<char>)
+    requires phase_a(s) is Ok, phase_b(phase_a(s)->Ok_0.rest) is Ok
+    ensures exists|ns_segs: Seq<Seq<char>>, sub_segs: Seq<Seq<char>>|
+        #[trigger] seg_shape(phase_b(phase_a(s)->Ok_0.rest)->Ok_0.ns, phase_a(s)->Ok_0.sub, ns_segs, sub_segs)
+{
+    let a = phase_a(s)->Ok_0;
+    let b = phase_b(a.rest)->Ok_0;
+    lemma_c07_of_phases(s);
+    let ns_segs = if b.ns.len() == 0 { Seq::<Seq<char>>::empty() } else {
+        choose|segs: Seq<Seq<char>>| #![auto] segs.len() > 0 && b.ns == join_segs(segs) && split_spec(b.ns, '/') == segs
+            && forall|i: int| 0 <= i < segs.len() ==> clean_ns_seg(#[trigger] segs[i]) };
+    let sub_segs = if a.sub.len() == 0 { Seq::<Seq<char>>::empty() } else {
+        choose|segs: Seq<Seq<char>>| #![auto] segs.len() > 0 && a.sub == join_segs(segs) && split_spec(a.sub, '/') == segs
+            && forall|i: int| 0 <= i < segs.len() ==> clean_sub_seg(#[trigger] segs[i]) };
+    assert(seg_shape(b.ns, a.sub, ns_segs, sub_segs));
+}
+
+/// C01 (type-agnostic instance): print -> parse is accepted, gives the same type text and the same field texts, and prints
+/// the identical string again
 pub proof fn theorem_c01_plain<T: FromStr + PurlShape>(s: Seq<char>, g: GenericPurl<T>, r2: Result<GenericPurl<T>, <T as PurlShape>::Error>)
     where <T as PurlShape>::Error: From<<T as FromStr>::Err>
     requires
         plain_shape::<T>(),
         parse_post::<T>(s, Ok::<GenericPurl<T>, <T as PurlShape>::Error>(g)),
-        !has_key(g.parts.qualifiers.qualifiers@, checksum_key()),
         parse_post::<T>(canon_spec(g.package_type.type_text(), g.parts), r2),
     ensures
         r2 is Ok,
@@ -2415,9 +2621,7 @@ pub proof fn theorem_c01_plain<T: FromStr + PurlShape>(s: Seq<char>, g: GenericP
 {
     let r = Ok::<GenericPurl<T>, <T as PurlShape>::Error>(g);
     // ---- first parse: what g is ----
-    assert(phase_a(s) is Ok);
     let a = phase_a(s)->Ok_0;
-    assert(valid_type(a.ty));
     let cr = choose|cr: Result<T, <T as FromStr>::Err>| #[trigger] T::from_str_rel(a.ty, cr) && match cr {
         Err(ce) => r is Err,
         Ok(t0) => match phase_b(a.rest) {
@@ -2426,19 +2630,17 @@ pub proof fn theorem_c01_plain<T: FromStr + PurlShape>(s: Seq<char>, g: GenericP
                 parts_are(p0, a, b) && #[trigger] T::finish_rel(t0, p0, t1, p1, fr) && build_post::<T>(t1, p1, fr, r),
         },
     };
-    assert(cr is Ok);
     let t0 = cr->Ok_0;
-    assert(t0.type_text() == a.ty);
-    assert(phase_b(a.rest) is Ok);
     let b = phase_b(a.rest)->Ok_0;
     let (p0, t1, p1, fr) = choose|p0: PurlParts, t1: T, p1: PurlParts, fr: Result<(), <T as PurlShape>::Error>|
         parts_are(p0, a, b) && #[trigger] T::finish_rel(t0, p0, t1, p1, fr) && build_post::<T>(t1, p1, fr, r);
     assert(p1 == p0 && fr is Ok && t1.type_text() == lower_ascii_seq(a.ty));
-    lemma_built_is_normal::<T>(s, t1, p1, fr, g);
+    lemma_first_build::<T>(t1, p1, fr, g);
     let ty1 = g.package_type.type_text();
     lemma_valid_type_lower(a.ty);
-    assert(ty1 == lower_ascii_seq(a.ty));
-    let (ns_segs, sub_segs) = choose|ns_segs: Seq<Seq<char>>, sub_segs: Seq<Seq<char>>| #[trigger] norm_parts(g.parts, ns_segs, sub_segs);
+    lemma_parsed_segments(s);
+    let (ns_segs, sub_segs) = choose|ns_segs: Seq<Seq<char>>, sub_segs: Seq<Seq<char>>| #[trigger] seg_shape(b.ns, a.sub, ns_segs, sub_segs);
+    assert(norm_parts(g.parts, ns_segs, sub_segs));
     // ---- the canonical string parses back to the texts of g (inverse theorem) ----
     lemma_parse_canon(ty1, g.parts, ns_segs, sub_segs);
     let c = canon_spec(ty1, g.parts);
@@ -2453,23 +2655,13 @@ pub proof fn theorem_c01_plain<T: FromStr + PurlShape>(s: Seq<char>, g: GenericP
                 parts_are(p0, a2, b) && #[trigger] T::finish_rel(t0, p0, t1, p1, fr) && build_post::<T>(t1, p1, fr, r2),
         },
     };
-    assert(cr2 is Ok);
     let u0 = cr2->Ok_0;
     let (q0, u1, q1, fr2) = choose|q0: PurlParts, u1: T, q1: PurlParts, fr2: Result<(), <T as PurlShape>::Error>|
         parts_are(q0, a2, b2) && #[trigger] T::finish_rel(u0, q0, u1, q1, fr2) && build_post::<T>(u1, q1, fr2, r2);
     assert(q1 == q0 && fr2 is Ok && u1.type_text() == lower_ascii_seq(ty1));
-    assert(u1.type_text() == ty1);
-    // build(): the name is there, no value is empty, no checksum
-    assert(q1.name@ == g.parts.name@);
-    let gq = g.parts.qualifiers.qualifiers@;
-    let qq = q1.qualifiers.qualifiers@;
-    assert(kvs(qq) == kvs(gq));
-    lemma_kvs_values_nonempty(gq, qq);
-    lemma_nonempty_id(qq);
-    lemma_kvs_no_key(gq, qq, checksum_key());
-    assert(r2 is Ok);
+    lemma_normal_quals_congr(g.parts.qualifiers.qualifiers@, q1.qualifiers.qualifiers@);
+    lemma_rebuild::<T>(u1, q1, fr2, r2);
     let g2 = r2->Ok_0;
-    assert(g2.parts.qualifiers.qualifiers@ == qq);
     assert(same_texts(g2.parts, g.parts));
     lemma_canon_congr(ty1, g2.parts, g.parts);
 }
@@ -2478,30 +2670,26 @@ pub proof fn theorem_c01_plain<T: FromStr + PurlShape>(s: Seq<char>, g: GenericP
 /// of the shape hooks or of the decoders)
 pub open spec fn handed_out_plain<T: PurlShape>(g: GenericPurl<T>) -> bool {
     valid_type(g.package_type.type_text()) && lower_ascii_seq(g.package_type.type_text()) == g.package_type.type_text()
-    && g.parts.name@.len() > 0 && wf_seq(g.parts.qualifiers.qualifiers@)
-    && (forall|i: int| 0 <= i < g.parts.qualifiers.qualifiers@.len() ==> (#[trigger] g.parts.qualifiers.qualifiers@[i]).1@.len() > 0)
+    && g.parts.name@.len() > 0 && normal_quals(g.parts.qualifiers.qualifiers@)
 }
 
-/// C10 (built-in string shapes, values without a checksum qualifier): into_builder().build() is the identity --
-/// build() applied to the value's own type and parts succeeds and returns the same type text and the very same parts
+/// C10 (built-in string shapes): into_builder().build() is the identity -- build() applied to the value's own type and
+/// parts succeeds and returns the same type text, the same field texts and the same canonical string
 pub proof fn theorem_c10_plain<T: FromStr + PurlShape>(g: GenericPurl<T>, t1: T, p1: PurlParts, fr: Result<(), <T as PurlShape>::Error>,
                                                         r: Result<GenericPurl<T>, <T as PurlShape>::Error>)
     where <T as PurlShape>::Error: From<<T as FromStr>::Err>
     requires
         plain_shape::<T>(), handed_out_plain(g),
-        !has_key(g.parts.qualifiers.qualifiers@, checksum_key()),
         // build() on GenericPurlBuilder { package_type: g.package_type, parts: g.parts }  (into_builder is proved to produce exactly that)
         T::finish_rel(g.package_type, g.parts, t1, p1, fr), build_post::<T>(t1, p1, fr, r),
     ensures
         r is Ok,
         r->Ok_0.package_type.type_text() == g.package_type.type_text(),
-        r->Ok_0.parts.namespace == g.parts.namespace, r->Ok_0.parts.name == g.parts.name, r->Ok_0.parts.version == g.parts.version,
-        r->Ok_0.parts.subpath == g.parts.subpath, r->Ok_0.parts.qualifiers.qualifiers@ == g.parts.qualifiers.qualifiers@,
+        same_texts(r->Ok_0.parts, g.parts),
         canon_spec(r->Ok_0.package_type.type_text(), r->Ok_0.parts) == canon_spec(g.package_type.type_text(), g.parts),
 {
     assert(p1 == g.parts && fr is Ok);
-    lemma_nonempty_id(g.parts.qualifiers.qualifiers@);
-    assert(r is Ok);
+    lemma_rebuild::<T>(t1, p1, fr, r);
     assert(same_texts(r->Ok_0.parts, g.parts));
     lemma_canon_congr(g.package_type.type_text(), r->Ok_0.parts, g.parts);
 }
@@ -2510,7 +2698,6 @@ pub proof fn theorem_c10_plain<T: FromStr + PurlShape>(g: GenericPurl<T>, t1: T,
 pub proof fn lemma_parsed_is_handed_out<T: FromStr + PurlShape>(s: Seq<char>, g: GenericPurl<T>)
     where <T as PurlShape>::Error: From<<T as FromStr>::Err>
     requires plain_shape::<T>(), parse_post::<T>(s, Ok::<GenericPurl<T>, <T as PurlShape>::Error>(g)),
-        !has_key(g.parts.qualifiers.qualifiers@, checksum_key()),
     ensures handed_out_plain(g)
 {
     let r = Ok::<GenericPurl<T>, <T as PurlShape>::Error>(g);
@@ -2527,9 +2714,21 @@ pub proof fn lemma_parsed_is_handed_out<T: FromStr + PurlShape>(s: Seq<char>, g:
     let b = phase_b(a.rest)->Ok_0;
     let (p0, t1, p1, fr) = choose|p0: PurlParts, t1: T, p1: PurlParts, fr: Result<(), <T as PurlShape>::Error>|
         parts_are(p0, a, b) && #[trigger] T::finish_rel(t0, p0, t1, p1, fr) && build_post::<T>(t1, p1, fr, r);
-    lemma_built_is_normal::<T>(s, t1, p1, fr, g);
+    lemma_first_build::<T>(t1, p1, fr, g);
     lemma_valid_type_lower(a.ty);
-    let (ns_segs, sub_segs) = choose|ns_segs: Seq<Seq<char>>, sub_segs: Seq<Seq<char>>| #[trigger] norm_parts(g.parts, ns_segs, sub_segs);
+}
+
+/// ... and so does every value build() returns for a built-in string shape (from the hook relation and build_post alone)
+pub proof fn lemma_built_is_handed_out_plain<T: FromStr + PurlShape>(t0: T, p0: PurlParts, t1: T, p1: PurlParts, fr: Result<(), <T as PurlShape>::Error>, g: GenericPurl<T>)
+    where <T as PurlShape>::Error: From<<T as FromStr>::Err>
+    requires plain_shape::<T>(), wf_seq(p0.qualifiers.qualifiers@), T::finish_rel(t0, p0, t1, p1, fr),
+        build_post::<T>(t1, p1, fr, Ok::<GenericPurl<T>, <T as PurlShape>::Error>(g)),
+    ensures handed_out_plain(g)
+{
+    assert(fr is Ok);
+    assert(valid_type(t0.type_text()));
+    lemma_valid_type_lower(t0.type_text());
+    lemma_first_build::<T>(t1, p1, fr, g);
 }
 
 // ---- unit T.PackageType  <= purl/src/package_type.rs:143 ----
@@ -2835,11 +3034,10 @@ pub proof fn lemma_pypi_norm_nonempty(s: Seq<char>)
     }
 }
 
-/// C01 (PackageType instance, values without a checksum qualifier)
+/// C01 (PackageType instance)
 pub proof fn theorem_c01_typed(s: Seq<char>, g: GenericPurl<PackageType>, r2: Result<GenericPurl<PackageType>, PackageError>)
     requires
         parse_post::<PackageType>(s, Ok::<GenericPurl<PackageType>, PackageError>(g)),
-        !has_key(g.parts.qualifiers.qualifiers@, checksum_key()),
         parse_post::<PackageType>(canon_spec(g.package_type.type_text(), g.parts), r2),
     ensures
         r2 is Ok,
@@ -2863,29 +3061,12 @@ pub proof fn theorem_c01_typed(s: Seq<char>, g: GenericPurl<PackageType>, r2: Re
         parts_are(p0, a, b) && #[trigger] PackageType::finish_rel(t0, p0, t1, p1, fr) && build_post::<PackageType>(t1, p1, fr, r);
     assert(pkg_finish_rel(t0, p0, t1, p1, fr));
     assert(fr is Ok);       // an error from the hook would have been returned
-    // the parts after the hook are still "parsed parts" except for the name: normality is shown directly
+    assert(p1.qualifiers == p0.qualifiers);
+    lemma_first_build::<PackageType>(t1, p1, fr, g);
     let ty1 = type_name(t1);
     lemma_type_name_facts(t1, t1);
-    assert(g.package_type == t1 && g.package_type.type_text() == ty1);
-    let q2 = nonempty_part(p1.qualifiers.qualifiers@);
-    lemma_checksum_key();
-    assert(wf_seq(p1.qualifiers.qualifiers@));
-    lemma_nonempty_wf(p1.qualifiers.qualifiers@);
-    lemma_nonempty_subset(p1.qualifiers.qualifiers@);
-    if has_key(q2, checksum_key()) {
-        let p = pos_of(q2, checksum_key());
-        lemma_has_pair_pos_key(q2, checksum_key());
-        let gq = g.parts.qualifiers.qualifiers@;
-        assert(gq[p].0 == q2[p].0);
-        assert(has_key(gq, checksum_key()));
-    }
-    lemma_c07_of_phases(s);
-    let ns_segs = if b.ns.len() == 0 { Seq::<Seq<char>>::empty() } else {
-        choose|segs: Seq<Seq<char>>| #![auto] segs.len() > 0 && b.ns == join_segs(segs) && split_spec(b.ns, '/') == segs
-            && forall|i: int| 0 <= i < segs.len() ==> clean_ns_seg(#[trigger] segs[i]) };
-    let sub_segs = if a.sub.len() == 0 { Seq::<Seq<char>>::empty() } else {
-        choose|segs: Seq<Seq<char>>| #![auto] segs.len() > 0 && a.sub == join_segs(segs) && split_spec(a.sub, '/') == segs
-            && forall|i: int| 0 <= i < segs.len() ==> clean_sub_seg(#[trigger] segs[i]) };
+    lemma_parsed_segments(s);
+    let (ns_segs, sub_segs) = choose|ns_segs: Seq<Seq<char>>, sub_segs: Seq<Seq<char>>| #[trigger] seg_shape(b.ns, a.sub, ns_segs, sub_segs);
     assert(norm_parts(g.parts, ns_segs, sub_segs));
     lemma_parse_canon(ty1, g.parts, ns_segs, sub_segs);
     let c = canon_spec(ty1, g.parts);
@@ -2916,23 +3097,17 @@ pub proof fn theorem_c01_typed(s: Seq<char>, g: GenericPurl<PackageType>, r2: Re
         _ => {},
     }
     assert(fr2 is Ok && u1 == t1 && q1.name@ == g.parts.name@);
-    let gq = g.parts.qualifiers.qualifiers@;
-    let qq = q1.qualifiers.qualifiers@;
-    assert(kvs(qq) == kvs(gq));
-    lemma_kvs_values_nonempty(gq, qq);
-    lemma_nonempty_id(qq);
-    lemma_kvs_no_key(gq, qq, checksum_key());
-    assert(r2 is Ok);
+    assert(q1.qualifiers == q0.qualifiers);
+    lemma_normal_quals_congr(g.parts.qualifiers.qualifiers@, q1.qualifiers.qualifiers@);
+    lemma_rebuild::<PackageType>(u1, q1, fr2, r2);
     let g2 = r2->Ok_0;
-    assert(g2.parts.qualifiers.qualifiers@ == qq);
     assert(same_texts(g2.parts, g.parts));
     lemma_canon_congr(ty1, g2.parts, g.parts);
 }
 
 /// what C04 / C08 say of every typed value handed out: the name already obeys the type's rule, maven has a namespace
 pub open spec fn handed_out_typed(g: GenericPurl<PackageType>) -> bool {
-    g.parts.name@.len() > 0 && wf_seq(g.parts.qualifiers.qualifiers@)
-    && (forall|i: int| 0 <= i < g.parts.qualifiers.qualifiers@.len() ==> (#[trigger] g.parts.qualifiers.qualifiers@[i]).1@.len() > 0)
+    g.parts.name@.len() > 0 && normal_quals(g.parts.qualifiers.qualifiers@)
     && match g.package_type {
         PackageType::NuGet => lower_seq(g.parts.name@) == g.parts.name@,
         PackageType::PyPI => pypi_norm(g.parts.name@) == g.parts.name@,
@@ -2945,20 +3120,10 @@ pub open spec fn handed_out_typed(g: GenericPurl<PackageType>) -> bool {
 pub proof fn lemma_built_is_handed_out_typed(t0: PackageType, p0: PurlParts, t1: PackageType, p1: PurlParts, fr: Result<(), PackageError>, g: GenericPurl<PackageType>)
     requires wf_seq(p0.qualifiers.qualifiers@), pkg_finish_rel(t0, p0, t1, p1, fr),
         build_post::<PackageType>(t1, p1, fr, Ok::<GenericPurl<PackageType>, PackageError>(g)),
-        !has_key(g.parts.qualifiers.qualifiers@, checksum_key()),
     ensures handed_out_typed(g)
 {
-    lemma_checksum_key();
-    let q2 = nonempty_part(p1.qualifiers.qualifiers@);
-    lemma_nonempty_wf(p1.qualifiers.qualifiers@);
-    lemma_nonempty_subset(p1.qualifiers.qualifiers@);
-    if has_key(q2, checksum_key()) {
-        let p = pos_of(q2, checksum_key());
-        lemma_has_pair_pos_key(q2, checksum_key());
-        let gq = g.parts.qualifiers.qualifiers@;
-        assert(gq[p].0 == q2[p].0);
-        assert(has_key(gq, checksum_key()));
-    }
+    assert(p1.qualifiers == p0.qualifiers);
+    lemma_first_build::<PackageType>(t1, p1, fr, g);
     match t0 {
         PackageType::NuGet => { lemma_lower_seq_idem(p0.name@); },
         PackageType::PyPI => { lemma_pypi_norm_idem(p0.name@); },
@@ -2966,11 +3131,11 @@ pub proof fn lemma_built_is_handed_out_typed(t0: PackageType, p0: PurlParts, t1:
     }
 }
 
-/// C10 (PackageType, values without a checksum qualifier): build() applied to the value's own type and parts succeeds and
-/// returns the same type, the same texts and the same canonical string
+/// C10 (PackageType): build() applied to the value's own type and parts succeeds and returns the same type, the same texts
+/// and the same canonical string
 pub proof fn theorem_c10_typed(g: GenericPurl<PackageType>, t1: PackageType, p1: PurlParts, fr: Result<(), PackageError>, r: Result<GenericPurl<PackageType>, PackageError>)
     requires
-        handed_out_typed(g), !has_key(g.parts.qualifiers.qualifiers@, checksum_key()),
+        handed_out_typed(g),
         PackageType::finish_rel(g.package_type, g.parts, t1, p1, fr), build_post::<PackageType>(t1, p1, fr, r),
     ensures
         r is Ok, r->Ok_0.package_type == g.package_type, same_texts(r->Ok_0.parts, g.parts),
@@ -2979,8 +3144,7 @@ pub proof fn theorem_c10_typed(g: GenericPurl<PackageType>, t1: PackageType, p1:
     assert(pkg_finish_rel(g.package_type, g.parts, t1, p1, fr));
     assert(fr is Ok && t1 == g.package_type && p1.name@ == g.parts.name@);
     assert(p1.qualifiers == g.parts.qualifiers);
-    lemma_nonempty_id(g.parts.qualifiers.qualifiers@);
-    assert(r is Ok);
+    lemma_rebuild::<PackageType>(t1, p1, fr, r);
     assert(same_texts(r->Ok_0.parts, g.parts));
     lemma_canon_congr(type_name(t1), r->Ok_0.parts, g.parts);
 }
@@ -2989,7 +3153,7 @@ pub proof fn theorem_c10_typed(g: GenericPurl<PackageType>, t1: PackageType, p1:
 // ---- consistency canary: must be REJECTED; if it verifies the assumptions are contradictory ----
 pub proof fn verif_canary_must_fail()
 {
-    axiom_string_from(); broadcast use axiom_ascii_to_lower; axiom_pct('a'); axiom_dec_enc(SetId::Path, seq!['a']);
+    axiom_string_from(); broadcast use axiom_ascii_to_lower; axiom_pct('a'); axiom_dec_enc(SetId::Path, seq!['a']); axiom_lower_no_comma('a');
     assert(false);
 }
 
@@ -2998,20 +3162,18 @@ pub proof fn verif_vacuity_c01_must_fail<T: FromStr + PurlShape>(s: Seq<char>, g
     requires
         plain_shape::<T>(),
         parse_post::<T>(s, Ok::<GenericPurl<T>, <T as PurlShape>::Error>(g)),
-        !has_key(g.parts.qualifiers.qualifiers@, checksum_key()),
         parse_post::<T>(canon_spec(g.package_type.type_text(), g.parts), r2),
     ensures false
 { }
 pub proof fn verif_vacuity_c01_typed_must_fail(s: Seq<char>, g: GenericPurl<PackageType>, r2: Result<GenericPurl<PackageType>, PackageError>)
     requires
         parse_post::<PackageType>(s, Ok::<GenericPurl<PackageType>, PackageError>(g)),
-        !has_key(g.parts.qualifiers.qualifiers@, checksum_key()),
         parse_post::<PackageType>(canon_spec(g.package_type.type_text(), g.parts), r2),
     ensures false
 { }
 pub proof fn verif_vacuity_c10_typed_must_fail(g: GenericPurl<PackageType>, t1: PackageType, p1: PurlParts, fr: Result<(), PackageError>, r: Result<GenericPurl<PackageType>, PackageError>)
     requires
-        handed_out_typed(g), !has_key(g.parts.qualifiers.qualifiers@, checksum_key()),
+        handed_out_typed(g),
         PackageType::finish_rel(g.package_type, g.parts, t1, p1, fr), build_post::<PackageType>(t1, p1, fr, r),
     ensures false
 { }
